@@ -118,8 +118,9 @@ SIG_RES = ['has invalid dimension', 'IndexError', 'Array value set to scalar nod
 class ModelFail(Exception):
     """the program must be rejected (flags empty) / is rejected by a recorded defect (flags non-empty)"""
 
-    def __init__(self, reason, sigs=None, flag=None, payload=None, who=None):
+    def __init__(self, reason, sigs=None, flag=None, payload=None, who=None, line=None):
         Exception.__init__(self, reason)
+        self.line = line            # exact source line of the statement whose own node object fails to cast
         self.reason, self.sigs, self.flag = reason, sigs, flag
         self.payload = payload      # the value the real code is expected to choke on (third argument of its exception)
         self.who = who              # path of the node whose cast fails (its source line is the second argument)
@@ -372,7 +373,7 @@ def interp(stmts, env, flags, remotes, where='main'):
         elif k == 'source':
             r = remotes.get(st['name'])
             if isinstance(r, ModelFail):
-                raise ModelFail('remote source rejected: ' + r.reason, r.sigs, r.flag)
+                raise ModelFail('remote source rejected: ' + r.reason, r.sigs, r.flag, r.payload, r.who, r.line)
             env.sources[st['name']] = r
         elif k == 'group':
             pass
@@ -427,7 +428,7 @@ def interp(stmts, env, flags, remotes, where='main'):
                     C.add('slice-index')
             if st['mode'] == 'def':
                 if sl and isstr and F_STRSLICE in flags:
-                    raise ModelFail('string slice', ['JSONDecodeError'], F_STRSLICE)
+                    raise ModelFail('string slice', ['JSONDecodeError'], F_STRSLICE, line=render_stmt(st, {})[0])
                 try:
                     v = apply_slice(srcval, sl)
                 except (IndexError, TypeError):
@@ -458,7 +459,8 @@ def interp(stmts, env, flags, remotes, where='main'):
                 if sl:
                     C.add('slice-in-modification')
                 if sl and isstr and F_MODSLICE in flags:
-                    raise ModelFail('string slice in a modification', ['JSONDecodeError'], F_MODSLICE)
+                    raise ModelFail('string slice in a modification', ['JSONDecodeError'], F_MODSLICE,
+                                    line=render_stmt(st, {})[0])
                 if sl and F_MODSLICE in flags and not isstr:
                     try:
                         part = apply_slice(srcval, sl)
